@@ -343,6 +343,17 @@ def _maybe_float(value: Any) -> Any:
 
 def _default_matches_schema(default: Any, schema: Schema) -> bool:
     # TODO: Consider using the validate functions here
+    if isinstance(schema, dict):
+        # A branch given as a full schema: complex types take the JSON value
+        # of their kind, annotated primitives are checked like the bare name
+        schema_type = schema["type"]
+        if schema_type == "array":
+            return isinstance(default, list)
+        if schema_type in ("map", "record", "error"):
+            return isinstance(default, dict)
+        if schema_type in ("enum", "fixed"):
+            return isinstance(default, str)
+        schema = schema_type
     if (
         (schema == "null" and default is not None)
         or (schema == "boolean" and not isinstance(default, bool))
@@ -350,8 +361,14 @@ def _default_matches_schema(default: Any, schema: Schema) -> bool:
         or (schema == "bytes" and not isinstance(default, str))
         or (schema == "double" and not isinstance(_maybe_float(default), float))
         or (schema == "float" and not isinstance(_maybe_float(default), float))
-        or (schema == "int" and not isinstance(default, int))
-        or (schema == "long" and not isinstance(default, int))
+        or (
+            schema == "int"
+            and (not isinstance(default, int) or isinstance(default, bool))
+        )
+        or (
+            schema == "long"
+            and (not isinstance(default, int) or isinstance(default, bool))
+        )
     ):
         return False
     return True
